@@ -335,6 +335,11 @@ func WalkVersions(ctx context.Context, fileSystem fs.FS, prefix, delimiter, keyM
 				return nil
 			}
 		}
+		if path != keyMarker {
+			// the version id marker only positions the listing inside
+			// the versions of the key marker
+			pastVersionIdMarker = true
+		}
 
 		if d.IsDir() {
 			// If prefix is defined and the directory does not match prefix,
